@@ -92,7 +92,15 @@ def talk(port, raw, timeout=10):
 
 
 def run(drv):
-    """-> (summary dict, violations [(signature, detail, case)], errors [str])"""
+    """-> (summary dict, violations [(signature, detail, case)], errors [str]); anything but a clean
+    result is taken a second time before it is believed (a loaded machine may be slow)."""
+    first = run_once(drv)
+    if not first[1] and not first[2]:
+        return first
+    return run_once(drv)
+
+
+def run_once(drv):
     binary = drv.build_rws_binary()
     rwsv = drv.RWSV
     d = tempfile.mkdtemp(prefix="rwsv-conf-")
